@@ -207,3 +207,51 @@ theorem voxValidate_stamps (f : VoxFacts) (s : VoxSt) :
     exact ⟨hns.1, hns.2, rfl, rfl⟩
 
 end Navis.IoMeta
+
+namespace Navis.IoMeta
+
+theorem applyMask_zip {α β} (m : List Bool) (xs : List α) (ys : List β) :
+    (applyMask m xs).zip (applyMask m ys) = applyMask m (xs.zip ys) := by
+  induction m generalizing xs ys with
+  | nil => cases xs <;> cases ys <;> simp [applyMask]
+  | cons b m ih =>
+    cases xs with
+    | nil => cases b <;> simp [applyMask]
+    | cons x xs =>
+      cases ys with
+      | nil => cases b <;> simp [applyMask]
+      | cons y ys => cases b <;> simp [applyMask, ih]
+
+theorem applyMask_length_eq {α β} (m : List Bool) (xs : List α) (ys : List β) (hl : xs.length = ys.length) :
+    (applyMask m xs).length = (applyMask m ys).length := by
+  induction m generalizing xs ys with
+  | nil => cases xs <;> cases ys <;> simp [applyMask]
+  | cons b m ih =>
+    cases xs with
+    | nil => cases ys with
+      | nil => cases b <;> simp [applyMask]
+      | cons y ys => simp at hl
+    | cons x xs =>
+      cases ys with
+      | nil => simp at hl
+      | cons y ys =>
+        have hl' : xs.length = ys.length := by simpa using hl
+        cases b <;> simp [applyMask, ih xs ys hl']
+
+theorem applyMask_map_filter {α} (p : α → Bool) (xs : List α) : applyMask (xs.map p) xs = xs.filter p := by
+  induction xs with
+  | nil => simp [applyMask]
+  | cons x xs ih => cases h : p x <;> simp [applyMask, h, ih]
+
+theorem applyMask_map_snd {α} (t : Nat) (vox : List α) (vals : List Nat) (hl : vox.length = vals.length) :
+    applyMask (vals.map fun v => decide (t ≤ v)) (vox.zip vals) = (vox.zip vals).filter fun p => decide (t ≤ p.2) := by
+  induction vox generalizing vals with
+  | nil => cases vals <;> simp [applyMask]
+  | cons x xs ih =>
+    cases vals with
+    | nil => simp at hl
+    | cons v vs =>
+      have hl' : xs.length = vs.length := by simpa using hl
+      by_cases h : t ≤ v <;> simp [applyMask, h, ih vs hl']
+
+end Navis.IoMeta
